@@ -64,6 +64,19 @@
 (*                   focusedIndex = currentIndex and t.version unchanged, no refreshPreview.  Impossible in the code  *)
 (*                   as it is (UpdateList bumps t.version whenever the revision changes: ReloadBumpsVersion = TRUE);  *)
 (*                   ReloadBumpsVersion = FALSE is "bump only if a selection was cleared" (MC_Preview_dev_reload.cfg)  *)
+(*   StaleAfterShowKeep the same through change-preview-window: hidden with change-preview-window(hidden), move away, show with *)
+(*                   change-preview-window(SPEC) (which announces from the action and does NOT bump t.version), move back    *)
+(*                   before the render loop ran (4 user actions)                                                            *)
+(* TWO WAYS OF HIDING.  toggle-preview drops t.previewer.lines; change-preview-window(hidden) KEEPS them (HideKeep).  THE    *)
+(* RULE for both: becoming visible again restarts the preview for the line under the cursor at that moment (ShowKeep:        *)
+(* refreshPreview from the action), whatever lines are still held - held lines are never a reason not to run the command.    *)
+(* FOLLOW (--preview-window follow; constant Follow, configs without scrolling: following stays enabled).  CODE-DERIVED: a   *)
+(* result of another version than t.previewer.version restarts the offset from 0; with a window, every result moves the     *)
+(* offset to Max(offset, lines - H): the last H lines of the output; all of an output shorter than the window from 0.        *)
+(* END OF OUTPUT IS NOT END OF PROCESS (kind "closed": the command closes stdout / stderr and goes on for ever).  EofOpen: the *)
+(* reader sees EOF, the final result is displayed, the previewer sits in cmd.Wait (pst = "waitproc"); finishChan is signalled *)
+(* only after Wait returned (Waited), so the watcher stays in its select, the command stays cancellable and stays in `alive`  *)
+(* until it is killed: OneAlive and the quiescence clauses cover it like any running command.                                 *)
 (* THE LIST IS A FUNCTION OF THE INPUT GENERATION.  `gen` = the generation on display (t.revision.major); the line     *)
 (* under the cursor is LineAt(gen, focus): a CONTENT, not an index.  Requests, outputs and rows name the line.          *)
 (* The properties are proved on the behaviours in which no deviation fired (dev = {}); MC_Preview_dev*.cfg check the *)
@@ -80,6 +93,8 @@ CONSTANTS MaxUI,          \* bound on user actions
           WithReload,     \* the user may replace the input (reload / reload-sync)
           ReloadBumpsVersion, \* Terminal.UpdateList bumps t.version whenever the list revision changed (the code); FALSE = only
                               \* when the reload had a selection to clear (deviation StaleAfterReload)
+          WithHideKeep,   \* the user may hide with change-preview-window(hidden) (lines kept) and show again with change-preview-window(SPEC)
+          Follow,         \* --preview-window follow (only in configs without scrolling)
           DelayedSetsVersion  \* reqPreviewDelayed assigns t.previewer.version (finding F24); FALSE = the version is handed to
                               \* printPreviewDelayed instead.  The cfgs take it from FzfPreviewTree (`<- TreeDelayedSetsVersion`, the one
                               \* switch that says which previewer the checked tree has) unless they pin it on purpose
@@ -93,7 +108,9 @@ IndexOf(line) == line[2]
 Lens == IF LensKind = "mixed" THEN <<3, 1, 2, 3>> ELSE <<1, 1, 1, 1>>
 Blank == <<None, 0>>                              \* an empty row
 
+ASSUME ~(Follow /\ WithScroll)
 VARIABLES focus, q, sel, tver, visible, acts,     \* terminal state (t.cy's item, t.input, t.selected, t.version, preview window)
+          hk,                                     \* "hidden": the window is hidden by change-preview-window(hidden); "shown": it came back that way last; "no"
           gen, rl,                                \* input generation of the list on display (t.revision.major); a newer one is on its way
           dirty, rfocus, rver,                    \* render loop: reqList pending; focusedIndex / version it last acted on
           uipc, ureq,                             \* continuation of a critical section: idle | set | quit2 | quit3 | quit4
@@ -106,12 +123,12 @@ VARIABLES focus, q, sel, tver, visible, acts,     \* terminal state (t.cy's item
           pd, screen,                             \* t.previewed: [ver, n, off, filled] (+ ghost req); the rows of the window
           quitting, ctxDone, procExited,
           alive, lastStarted, lastEnq, dev        \* ghosts: versions whose process group is alive; request started / announced last
-vars == <<focus, q, sel, tver, visible, acts, gen, rl, dirty, rfocus, rver, uipc, ureq, pbox, pquit, pst, pver, preq, wst, dtimer, cst, ckind,
+vars == <<focus, q, sel, tver, visible, acts, hk, gen, rl, dirty, rfocus, rver, uipc, ureq, pbox, pquit, pst, pver, preq, wst, dtimer, cst, ckind,
           cout, rendered, ticked, fin, dbox, refbox, delbox, shown, poff, pd, screen, quitting, ctxDone, procExited, alive,
           lastStarted, lastEnq, dev>>
 
-listVars == <<gen, rl>>
-uiVars   == <<focus, q, sel, tver, visible, acts, gen, rl>>
+listVars == <<gen, rl, hk>>
+uiVars   == <<focus, q, sel, tver, visible, acts, gen, rl, hk>>
 rendVars == <<dirty, rfocus, rver>>
 pvVars   == <<pst, pver, preq>>
 cmdVars  == <<cst, ckind, cout, rendered, ticked, fin>>
@@ -126,7 +143,7 @@ CurReq == [line |-> CurLine, q |-> IF TemplateHasQ THEN q ELSE 0, sel |-> sel]
 NLines(r) == Lens[IndexOf(r.line) + 2 * r.q]
 NoLines == [ver |-> 0, req |-> None, n |-> 0]
 
-Init == /\ focus = 1 /\ q = 0 /\ sel = 0 /\ tver = 0 /\ visible = TRUE /\ acts = 0 /\ gen = 0 /\ rl = FALSE
+Init == /\ focus = 1 /\ q = 0 /\ sel = 0 /\ tver = 0 /\ visible = TRUE /\ acts = 0 /\ hk = "no" /\ gen = 0 /\ rl = FALSE
         /\ dirty = TRUE /\ rfocus = 0 /\ rver = -1
         /\ uipc = "idle" /\ ureq = None /\ pbox = None /\ pquit = FALSE
         /\ pst = "wait" /\ pver = 0 /\ preq = None /\ wst = "none" /\ dtimer = FALSE
@@ -142,7 +159,7 @@ Init == /\ focus = 1 /\ q = 0 /\ sel = 0 /\ tver = 0 /\ visible = TRUE /\ acts =
 (* (SIGKILL to the process group: the command is dead at once) in a step of its own (WatchKill).                     *)
 InFlightForCancel == pst = "picked" \/ wst = "starting"
 InFlightForKill   == pst = "picked" \/ wst \in {"starting", "delaying"}
-Killed == /\ cst' = (IF cst = "running" THEN "killed" ELSE cst) /\ alive' = {} /\ wst' = "done"
+Killed == /\ cst' = (IF cst \in {"running", "closed"} THEN "killed" ELSE cst) /\ alive' = {} /\ wst' = "done"
 
 TrySendDev(immediately) ==
     IF wst = "selecting" THEN {}
@@ -173,7 +190,10 @@ PaintS(s, v, req, n, off) ==
     ELSE [s EXCEPT !.screen = Window(req, n, off),                                  \* DisplayFull: every row
                    !.pd = [ver |-> v, n |-> n, off |-> off, filled |-> (n - off >= H), req |-> req]]
 (* reqPreviewDisplay: take over version and lines; the first result of a command resets the offset; printPreview *)
-DisplayOff(s) == IF dbox.off >= 0 THEN 0 ELSE s.poff          \* util.Constrain(0, 0, n - 1) = 0
+Max2(a, b) == IF a > b THEN a ELSE b
+FollowBase(s) == IF Follow /\ s.shown.ver # dbox.ver THEN 0 ELSE s.poff      \* CODE-DERIVED: new version + following: offset = 0 first
+DisplayOff(s) == IF Follow /\ visible THEN Max2(FollowBase(s), dbox.n - H)    \* follow: the end of the output in the last row
+                 ELSE IF dbox.off >= 0 THEN 0 ELSE FollowBase(s)              \* util.Constrain(0, 0, n - 1) = 0
 DisplayS(s) == IF dbox = None THEN s
                ELSE PaintS([s EXCEPT !.shown = [ver |-> dbox.ver, req |-> dbox.req, n |-> dbox.n], !.poff = DisplayOff(s)],
                            dbox.ver, dbox.req, dbox.n, DisplayOff(s))
@@ -204,14 +224,29 @@ Toggle == /\ CanAct /\ sel' = 1 - sel /\ tver' = tver + 1 /\ dirty' = TRUE /\ ac
                          alive, lastStarted, lastEnq, dev>>
 (* toggle-preview: hiding cancels the running command and drops the lines; showing cancels and enqueues from the     *)
 (* action itself.  Either way the windows are laid out again: empty window, t.previewed.version = 0                  *)
-TogglePreview == /\ CanAct /\ visible' = ~visible /\ acts' = acts + 1
+TogglePreview == /\ CanAct /\ hk # "hidden" /\ hk' = "no" /\ visible' = ~visible /\ acts' = acts + 1
                  /\ dirty' = TRUE /\ tver' = (IF ShowBumpsVersion THEN tver + 1 ELSE tver)      \* updatePreviewWindow: reqList
                  /\ TrySend(FALSE)
                  /\ IF visible THEN UNCHANGED <<uipc, ureq, lastEnq>> ELSE (uipc' = "set" /\ ureq' = CurReq /\ lastEnq' = CurReq)
                  /\ shown' = (IF visible THEN [shown EXCEPT !.n = 0, !.req = None] ELSE shown)
                  /\ screen' = [r \in 1..H |-> Blank] /\ pd' = [pd EXCEPT !.ver = 0]
-                 /\ UNCHANGED <<focus, q, sel, listVars, rfocus, rver, pbox, pquit, pvVars, dtimer, ckind, cout, rendered, ticked, fin, boxVars, poff,
+                 /\ UNCHANGED <<focus, q, sel, gen, rl, rfocus, rver, pbox, pquit, pvVars, dtimer, ckind, cout, rendered, ticked, fin, boxVars, poff,
                                 endVars, lastStarted>>
+(* change-preview-window(hidden): the window goes away (updatePreviewWindow: laid out again, reqList), the running    *)
+(* command is cancelled, t.previewer.lines are KEPT.  change-preview-window(SPEC) while hidden that way: the window is *)
+(* back, empty, and the action itself restarts the preview for the line under the cursor (refreshPreview: try-send,    *)
+(* then Set); t.version is not touched                                                                                 *)
+HideKeep == /\ WithHideKeep /\ CanAct /\ visible /\ visible' = FALSE /\ hk' = "hidden" /\ acts' = acts + 1
+            /\ dirty' = TRUE /\ TrySend(FALSE)
+            /\ screen' = [r \in 1..H |-> Blank] /\ pd' = [pd EXCEPT !.ver = 0]
+            /\ UNCHANGED <<focus, q, sel, tver, gen, rl, rfocus, rver, uipc, ureq, pbox, pquit, pvVars, dtimer, ckind, cout, rendered, ticked, fin, boxVars,
+                           shown, poff, endVars, lastStarted, lastEnq>>
+ShowKeep == /\ WithHideKeep /\ CanAct /\ ~visible /\ hk = "hidden" /\ visible' = TRUE /\ hk' = "shown" /\ acts' = acts + 1
+            /\ dirty' = TRUE /\ TrySend(FALSE)
+            /\ uipc' = "set" /\ ureq' = CurReq /\ lastEnq' = CurReq
+            /\ screen' = [r \in 1..H |-> Blank] /\ pd' = [pd EXCEPT !.ver = 0]
+            /\ UNCHANGED <<focus, q, sel, tver, gen, rl, rfocus, rver, pbox, pquit, pvVars, dtimer, ckind, cout, rendered, ticked, fin, boxVars,
+                           shown, poff, endVars, lastStarted>>
 (* preview-up / preview-down: scrollPreviewTo, then reqPreviewRefresh.  (t.previewer.scrollable is over-approximated:  *)
 (* any output of two lines or more may be scrolled - the code allows it after a repeated display of the same lines)   *)
 Scroll == /\ WithScroll /\ CanAct /\ visible /\ shown.n >= 2
@@ -228,7 +263,7 @@ Rewrap == /\ WithScroll /\ CanAct /\ visible
 (* until the first lines of the new input have been matched, reload-sync: until the new input is complete - the same *)
 (* in an untimed model) and every action still works on it; then UpdateList below replaces it                        *)
 Reload == /\ WithReload /\ CanAct /\ ~rl /\ rl' = TRUE /\ acts' = acts + 1
-          /\ UNCHANGED <<focus, q, sel, tver, visible, gen, rendVars, uipc, ureq, pbox, pquit, pvVars, wst, dtimer, cmdVars, boxVars, winVars,
+          /\ UNCHANGED <<focus, q, sel, tver, visible, gen, hk, rendVars, uipc, ureq, pbox, pquit, pvVars, wst, dtimer, cmdVars, boxVars, winVars,
                          endVars, alive, lastStarted, lastEnq, dev>>
 (* any way of leaving (accept, abort, SIGTERM): exit() sets reqQuit on the previewBox, then EvtQuit is set *)
 Exit == /\ CanAct /\ acts' = acts + 1
@@ -247,14 +282,15 @@ UpdateList == /\ rl /\ uipc = "idle" /\ ~quitting /\ ~procExited
               /\ \E f \in {focus, 1} : focus' = f
               /\ tver' = (IF ReloadBumpsVersion \/ sel # 0 THEN tver + 1 ELSE tver)
               /\ dirty' = TRUE
-              /\ UNCHANGED <<q, visible, acts, rfocus, rver, uipc, ureq, pbox, pquit, pvVars, wst, dtimer, cmdVars, boxVars, winVars, endVars,
+              /\ UNCHANGED <<q, visible, acts, hk, rfocus, rver, uipc, ureq, pbox, pquit, pvVars, wst, dtimer, cmdVars, boxVars, winVars, endVars,
                              alive, lastStarted, lastEnq, dev>>
 
 -------------------------------------------------------------------------------
 (* Render loop *)
 (* the render loop finds neither the focused INDEX nor t.version changed although the request it announced last is  *)
 (* not the one for the present state: the line was replaced under the cursor (reload) / the window was shown again    *)
-StaleCause == IF lastEnq # None /\ lastEnq.line # CurLine /\ IndexOf(lastEnq.line) = focus THEN "StaleAfterReload" ELSE "StaleAfterShow"
+StaleCause == IF lastEnq # None /\ lastEnq.line # CurLine /\ IndexOf(lastEnq.line) = focus THEN "StaleAfterReload"
+              ELSE IF hk = "shown" THEN "StaleAfterShowKeep" ELSE "StaleAfterShow"
 Render == /\ dirty /\ uipc = "idle" /\ ~quitting /\ ~procExited
           /\ dirty' = FALSE
           /\ IF focus # rfocus \/ tver # rver
@@ -322,6 +358,16 @@ Eof == /\ pst = "running" /\ cst \in {"exited", "killed"} /\ ~procExited
        /\ dbox' = Result(cout) /\ dev' = dev \cup Overwrites /\ rendered' = TRUE /\ fin' = TRUE /\ pst' = "reaping"
        /\ UNCHANGED <<uiVars, rendVars, uipc, ureq, pbox, pquit, pver, preq, wst, dtimer, cst, ckind, cout, ticked, refbox, delbox, winVars,
                       endVars, alive, lastStarted, lastEnq>>
+(* kind "closed": the reader saw EOF (the output is complete, final display) - the process is still there: cmd.Wait blocks *)
+EofOpen == /\ pst = "running" /\ cst = "closed" /\ ~procExited
+           /\ dbox' = Result(cout) /\ dev' = dev \cup Overwrites /\ rendered' = TRUE /\ pst' = "waitproc"
+           /\ UNCHANGED <<uiVars, rendVars, uipc, ureq, pbox, pquit, pver, preq, wst, dtimer, cst, ckind, cout, ticked, fin, refbox, delbox, winVars,
+                          endVars, alive, lastStarted, lastEnq>>
+(* cmd.Wait returns once the process is gone; only THEN finishChan <- true *)
+Waited == /\ pst = "waitproc" /\ cst = "killed" /\ ~procExited
+          /\ fin' = TRUE /\ pst' = "reaping"
+          /\ UNCHANGED <<uiVars, rendVars, uipc, ureq, pbox, pquit, pver, preq, wst, dtimer, cst, ckind, cout, rendered, ticked, boxVars, winVars,
+                         endVars, alive, lastStarted, lastEnq, dev>>
 Reaped == /\ pst = "reaping" /\ wst = "done" /\ ~procExited
           /\ pst' = "wait" /\ wst' = "none" /\ cst' = "none"
           /\ UNCHANGED <<uiVars, rendVars, uipc, ureq, pbox, pquit, pver, preq, dtimer, ckind, cout, rendered, ticked, fin, boxVars, winVars,
@@ -359,13 +405,21 @@ CmdExit == /\ cst = "running" /\ ckind = "finite" /\ cout = NLines(preq)
            /\ UNCHANGED <<uiVars, rendVars, uipc, ureq, pbox, pquit, pvVars, wst, dtimer, ckind, cout, rendered, ticked, fin, boxVars, winVars, endVars,
                           lastStarted, lastEnq, dev>>
 
+(* kind "closed": all lines written, stdout and stderr closed; the process goes on (and stays in `alive`) *)
+CmdClose == /\ cst = "running" /\ ckind = "closed" /\ cout = NLines(preq)
+            /\ cst' = "closed"
+            /\ UNCHANGED <<uiVars, rendVars, uipc, ureq, pbox, pquit, pvVars, wst, dtimer, ckind, cout, rendered, ticked, fin, boxVars, winVars, endVars,
+                           alive, lastStarted, lastEnq, dev>>
+
 -------------------------------------------------------------------------------
-User == Move \/ EditQuery \/ Toggle \/ TogglePreview \/ Scroll \/ Rewrap \/ Reload \/ Exit
+User == HideKeep \/ ShowKeep \/ Move \/ EditQuery \/ Toggle \/ TogglePreview \/ Scroll \/ Rewrap \/ Reload \/ Exit
 System == UpdateList \/ Render \/ RefreshSet \/ Display \/ Repaint \/ Loading \/ ExitKill \/ ExitCtx \/ ProcExit \/ Pick \/ Start \/ Eof \/ Reaped \/ TickDisplay
+          \/ EofOpen \/ Waited \/ CmdClose
           \/ WatchEnter \/ WatchFinish \/ WatchTimer \/ WatchKill \/ WatchCtx \/ WatchDelayed \/ CmdOutput \/ CmdExit
 Next == User \/ System
 (* the timer need not fire (commands are usually faster): no fairness for WatchDelayed; the new input arrives *)
 Fair == UpdateList \/ Render \/ RefreshSet \/ Display \/ Repaint \/ Loading \/ ExitKill \/ ExitCtx \/ ProcExit \/ Pick \/ Start \/ Eof \/ Reaped \/ TickDisplay
+        \/ EofOpen \/ Waited \/ CmdClose
         \/ WatchEnter \/ WatchFinish \/ WatchTimer \/ WatchKill \/ WatchCtx \/ CmdOutput \/ CmdExit
 Spec == Init /\ [][Next]_vars /\ WF_vars(Fair)
 
@@ -374,16 +428,16 @@ Spec == Init /\ [][Next]_vars /\ WF_vars(Fair)
 Lines == {LineAt(g, i) : g \in 0..MaxUI, i \in 1..2}
 Rows == {Blank} \cup {<<r, i>> : r \in [line : Lines, q : 0..1, sel : 0..1], i \in 1..4}
 TypeOK == /\ uipc \in {"idle", "set", "quit2", "quit3", "quit4"}
-          /\ pst \in {"wait", "picked", "running", "reaping", "stopped"}
+          /\ pst \in {"wait", "picked", "running", "waitproc", "reaping", "stopped"} /\ hk \in {"no", "hidden", "shown"}
           /\ wst \in {"none", "starting", "selecting", "delaying", "killing", "done"}
-          /\ cst \in {"none", "running", "exited", "killed"}
-          /\ dev \subseteq {"LostCancel", "LostKillAtExit", "ExitBeforeKill", "StaleAfterShow", "StaleAfterReload", "StaleRows", "LostOffsetReset",
+          /\ cst \in {"none", "running", "closed", "exited", "killed"}
+          /\ dev \subseteq {"LostCancel", "LostKillAtExit", "ExitBeforeKill", "StaleAfterShow", "StaleAfterShowKeep", "StaleAfterReload", "StaleRows", "LostOffsetReset",
                             "LateLoading"}
           /\ gen \in 0..MaxUI /\ rl \in BOOLEAN /\ focus \in 1..2
           /\ DOMAIN screen = 1..H /\ \A r \in 1..H : screen[r] \in Rows
           /\ poff >= 0 /\ cout >= 0 /\ ticked <= cout
 (* superseded commands are terminated before the next one starts: at most one process group alive at any time *)
-OneAlive == Cardinality(alive) <= 1 /\ (alive # {} => alive = {pver} /\ cst = "running")
+OneAlive == Cardinality(alive) <= 1 /\ (alive # {} => alive = {pver} /\ cst \in {"running", "closed"})     \* (closed: output ended, process alive)
 (* the window never shows output of a command newer or other than one that was started; displays arrive in order *)
 ShownIsStarted == shown.ver <= pver
 (* a row never shows anything but a line of a command that was started for a request the terminal announced *)
@@ -397,6 +451,7 @@ Quiescent == ~ENABLED Fair
 ShowsOutputOf(r) == /\ shown.req = r /\ shown.ver = pver /\ shown.n = NLines(r)
                     /\ screen = Window(r, NLines(r), poff)
                     /\ poff < NLines(r) \/ (poff = 0 /\ NLines(r) = 0)
+                    /\ Follow => poff = Max2(0, NLines(r) - H)           \* follow: the last H lines; a shorter output from its first line
 CaughtUp == IF procExited THEN alive = {}
             ELSE visible => /\ lastStarted = CurReq
                             /\ ShowsOutputOf(CurReq)
@@ -408,6 +463,7 @@ ConvergenceLostCancel == (Quiescent /\ ~procExited /\ dev \subseteq {"LostCancel
 ConvergenceStaleAfterShow == (Quiescent /\ ~procExited /\ dev \subseteq {"StaleAfterShow"}) => CaughtUp  \* violated (MaxUI >= 4)
 ConvergenceStaleRows == (Quiescent /\ ~procExited /\ dev \subseteq {"StaleRows"}) => CaughtUp        \* violated (F24, rows of an older preview)
 ConvergenceLostOffsetReset == (Quiescent /\ ~procExited /\ dev \subseteq {"LostOffsetReset"}) => CaughtUp
+ConvergenceStaleAfterShowKeep == (Quiescent /\ ~procExited /\ dev \subseteq {"StaleAfterShowKeep"}) => CaughtUp  \* violated (MaxUI >= 4)
 ConvergenceStaleAfterReload == (Quiescent /\ ~procExited /\ dev \subseteq {"StaleAfterReload"}) => CaughtUp  \* violated (1 user action)
 ShowFixed == ShowBumpsVersion => "StaleAfterShow" \notin dev          \* with the fix the deviation cannot happen at all
 ReloadFixed == ReloadBumpsVersion => "StaleAfterReload" \notin dev    \* nor this one in the code as it is
